@@ -27,7 +27,7 @@ def oracle_automaton(c: Case, tr: Trace) -> Optional[str]:
         if t == 'E':
             stack.append([i, 'fresh', u])
             continue
-        if t in ('ra', 'sc', 'ss', 'sd', 'rp'):
+        if t in ('ra', 'sc', 'ss', 'sd', 'rp', 'cs', 'csu', 'cfa', 'cuw'):
             continue
         if not stack:
             return f"event '{l}' outside any invocation"
@@ -87,6 +87,47 @@ def oracle_raise_source(c: Case, tr: Trace) -> Optional[str]:
                 continue
             if not open_kinds or open_kinds[-1] not in ('must', 'raise'):
                 return f"raise for rule {p[1]} while the innermost invocation is of kind {open_kinds[-1] if open_kinds else None}"
+    return None
+
+
+CA_TAGS = ('cs', 'csu', 'cfa', 'cuw')
+
+
+def oracle_control_action(c: Case, tr: Trace) -> Optional[str]:
+    """contrib/control_action.hpp: for a rule whose action class derives from control_action, `start` directly after the invocation
+    is entered (same position), then the rule's whole match(), then exactly one of `success` (invocation returns true) / `failure`
+    (returns false) at the position the invocation is left at / `unwind` (an exception passes; only if the class defines it)."""
+    stack: List[List] = []        # [id, wrap, enter pos, hooks seen]
+    for l in tr.events:
+        p = l.split()
+        t = p[0]
+        if t == 'E':
+            nid = int(p[1])
+            a = c.g.acts.get(nid) if c.cfg.fam == 0 else None
+            stack.append([nid, a.wrap if a is not None else 'none', p[4:7], []])
+        elif t in CA_TAGS:
+            if not stack or stack[-1][0] != int(p[1]):
+                return f"control_action hook '{l}' outside the invocation of its rule"
+            fr = stack[-1]
+            if not fr[1].startswith('cta:'):
+                return f"control_action hook '{l}' for a rule without a control_action class"
+            if t == 'cs' and (fr[3] or p[2:5] != fr[2]):
+                return f"control_action start '{l}' is not the first hook at the position the rule was entered at {fr[2]}"
+            if t != 'cs' and fr[3] != ['cs']:
+                return f"control_action closing hook '{l}' after {fr[3]}"
+            fr[3].append(t)
+            fr.append(p[2:5])
+        elif t == 'X':
+            fr = stack.pop()
+            if not fr[1].startswith('cta:'):
+                continue
+            want = {'1': ['cs', 'csu'], '0': ['cs', 'cfa'], '2': (['cs', 'cuw'] if fr[1] == 'cta:1' else ['cs'])}[p[2]]
+            if fr[3] != want:
+                return f"rule {fr[0]} with a control_action class returned {p[2]} after the hooks {fr[3]} (expected {want})"
+            if p[2] in ('0', '1') and fr[-1] != p[3:6]:
+                return f"control_action closing hook of rule {fr[0]} at {fr[-1]}, the invocation ended at {p[3:6]}"
+        elif stack and stack[-1][1].startswith('cta:') and stack[-1][3] not in (['cs'],) and int(p[1]) == stack[-1][0] and t in ('st',):
+            return f"the rule's own start hook before the control_action start for rule {p[1]}"
     return None
 
 
@@ -165,6 +206,29 @@ int main() { std::string line; while( std::getline( std::cin, line ) ) { std::is
     cov['evaluations'] += st['cases']
 
 
+def control_action_profile():
+    from .gram import ActSpec
+
+    def grams(rng, tier):
+        out = []
+        corpus.RACT_MODE[0] = 'mixed'
+        for i in range(8 if tier == 'quick' else 50):
+            rg = corpus.RandGen(rng, False, True, rng.randint(3, 6))
+            g, roots = rg.grammar(f"cta{i}")
+            corpus.attach_actions(rng, g, 'throw')
+            for nid, nd in g.nodes.items():
+                if nd.ctl and rng.random() < 0.35:
+                    a = g.acts.get(nid) or ActSpec()
+                    if a.wrap == 'none':
+                        a.wrap = f"cta:{rng.randint(0, 1)}"
+                        g.acts[nid] = a
+            out.append((g, roots[:4], {'kind': 'control_action'}))
+        return out
+    return engine.Profile('cta', grams, profiles.amr_configs(ams=((1, 'r'), (1, 'o'), (0, 'o')), unwinds=(1, 0)),
+                          profiles.inputs_exhaustive(4, 6, cap_q=100, cap_t=600), ORACLES + [('control_action', oracle_control_action)],
+                          per_tu=2, compare_filter=lambda l: l.split(' ', 1)[0] not in CA_TAGS)
+
+
 def run(tier: str) -> int:
     cfg = profiles.amr_configs(ams=((1, 'r'), (1, 'o'), (0, 'o')), unwinds=(1, 0))
     ps = [
@@ -174,6 +238,9 @@ def run(tier: str) -> int:
         profiles.random_profile('rnd', False, True, 20, 100, ORACLES, actions_mode='throw',
                                 inputs=profiles.inputs_exhaustive(4, 6, cap_q=150, cap_t=900), per_tu=2, configs=cfg),
         profiles.control_profile('cc', 8, 50, ORACLES, actions_mode='throw', per_tu=2),
+        # contrib/control_action.hpp: action classes with start / success / failure (/ unwind) on a third of the rules; the model
+        # does not know them (their lines are dropped for the comparison), the oracle judges them
+        control_action_profile(),
         # the same runs through coverage<>(): state_control<> around the logging control (with and without unwind()) must forward
         # exactly the hooks of a plain parse, for visible rules only
         # (no apply<> / if_apply<> rules here: their action classes are called with every state, also the one state_control<> appends)
